@@ -16,7 +16,7 @@ import time
 
 import common
 
-SCRATCH = "/tmp/verif-scratch-sens"
+SCRATCH = "/tmp/verif-scratch-sens-%d" % os.getpid()
 
 # (name, file, old, new) — exact-string replacements; every edit compiles and keeps the pinned test suite green.
 EDITS = {
